@@ -121,27 +121,76 @@ impl AnySpec {
     }
 }
 
-/// what a manager reports / enforces, reduced to (id, index of an equal spec in `pool`)
+/// what a manager reports / enforces: id and complete fingerprint
 #[derive(Clone, Debug, PartialEq)]
 pub struct Seen {
     pub id: String,
     pub debug: String,
 }
 
+// `debug` is a complete fingerprint of the rule (every field, id included; override tables sorted):
+// reported rules are matched to pool entries by it, so two pool entries may share an id
 fn seen_flow(r: &flow::Rule) -> Seen {
-    Seen { id: r.id.clone(), debug: format!("flow[{} res={} thr={} iv={} ctrl={:?} calc={:?}]", r.id, r.resource, r.threshold, r.stat_interval_ms, r.control_strategy, r.calculate_strategy) }
+    Seen {
+        id: r.id.clone(),
+        debug: format!(
+            "flow[{} res={} ref={} thr={} iv={} ctrl={:?} calc={:?} rel={:?} warm={}/{} q={} mem={}/{}/{}/{}]",
+            r.id,
+            r.resource,
+            r.ref_resource,
+            r.threshold,
+            r.stat_interval_ms,
+            r.control_strategy,
+            r.calculate_strategy,
+            r.relation_strategy,
+            r.warm_up_period_sec,
+            r.warm_up_cold_factor,
+            r.max_queueing_time_ms,
+            r.low_mem_usage_threshold,
+            r.high_mem_usage_threshold,
+            r.mem_low_water_mark,
+            r.mem_high_water_mark
+        ),
+    }
 }
 fn seen_cb(r: &cb::Rule) -> Seen {
-    Seen { id: r.id.clone(), debug: format!("breaker[{} res={} {:?} thr={} retry={} min={} iv={}]", r.id, r.resource, r.strategy, r.threshold, r.retry_timeout_ms, r.min_request_amount, r.stat_interval_ms) }
+    Seen {
+        id: r.id.clone(),
+        debug: format!(
+            "breaker[{} res={} {:?} thr={} retry={} min={} iv={} buckets={} maxrt={}]",
+            r.id, r.resource, r.strategy, r.threshold, r.retry_timeout_ms, r.min_request_amount, r.stat_interval_ms, r.stat_sliding_window_bucket_count, r.max_allowed_rt_ms
+        ),
+    }
 }
 fn seen_hot(r: &hotspot::Rule) -> Seen {
-    Seen { id: r.id.clone(), debug: format!("hotspot[{} res={} {:?} thr={} idx={} d={}]", r.id, r.resource, r.metric_type, r.threshold, r.param_index, r.duration_in_sec) }
+    let mut items: Vec<(String, u64)> = r.specific_items.iter().map(|(k, v)| (format!("{:?}", k), *v)).collect();
+    items.sort();
+    Seen {
+        id: r.id.clone(),
+        debug: format!(
+            "hotspot[{} res={} {:?} {:?} thr={} idx={} key={} d={} q={} burst={} cap={} items={:?}]",
+            r.id, r.resource, r.metric_type, r.control_strategy, r.threshold, r.param_index, r.param_key, r.duration_in_sec, r.max_queueing_time_ms, r.burst_count, r.params_max_capacity, items
+        ),
+    }
 }
 fn seen_iso(r: &isolation::Rule) -> Seen {
-    Seen { id: r.id.clone(), debug: format!("isolation[{} res={} thr={}]", r.id, r.resource, r.threshold) }
+    Seen { id: r.id.clone(), debug: format!("isolation[{} res={} {:?} thr={}]", r.id, r.resource, r.metric_type, r.threshold) }
 }
 fn seen_sys(r: &system::Rule) -> Seen {
     Seen { id: r.id.clone(), debug: format!("system[{} {:?} thr={} {:?}]", r.id, r.metric_type, r.threshold, r.strategy) }
+}
+
+impl AnySpec {
+    /// the fingerprint the library would report for this specification
+    pub fn fingerprint(&self) -> String {
+        match self {
+            AnySpec::Flow(s) => seen_flow(&s.rule()).debug,
+            AnySpec::Breaker(s) => seen_cb(&s.rule()).debug,
+            AnySpec::Hot(s) => seen_hot(&s.rule()).debug,
+            AnySpec::Iso(s) => seen_iso(&s.rule()).debug,
+            AnySpec::Sys(s) => seen_sys(&s.rule()).debug,
+        }
+    }
 }
 
 macro_rules! rules_of {
